@@ -211,11 +211,11 @@ func stepsElapsed(st []TimeStep) (elapsed, skew int) {
 
 type genState struct {
 	advanced int // simulated seconds of pause planned so far in this scenario (bounded: real time per scenario)
-	r     *Rng
-	w     *World
-	clock time.Time
-	pred  map[string]MState // predicted records per file (nil = unknown / invalid)
-	focus string
+	r        *Rng
+	w        *World
+	clock    time.Time
+	pred     map[string]MState // predicted records per file (nil = unknown / invalid)
+	focus    string
 }
 
 func (g *genState) dateArgs(a *OpArgs, st MState, farOK bool) {
@@ -412,6 +412,9 @@ func (g *genState) genMutating(kind string, file string) Op {
 				}
 			}
 		}
+	}
+	if r.Chance(1, 3) {
+		op.ArgForm = r.Intn(64) // another spelling of the same command line
 	}
 	op.renderArgv()
 	return op
@@ -632,12 +635,22 @@ func (histEngine) generate(property string, seed int64, index int, tier string) 
 		if r.Chance(1, 5) {
 			op.Cpus = r.Pick2([]int{1, 2, 3, 8, 16, 200})
 		}
+		if op.mutating() && op.Kind != "pause" && r.Chance(1, map[bool]int{true: 3, false: 10}[file == ""]) {
+			// something is piped into stdin (a shell loop `while read ...; do klog start ...; done < tasks.txt`):
+			// a mutating command works on its file argument or the default bookmark, never on stdin
+			op.Stdin = r.Pick([]string{"buy milk\ncall bob\n", "2024-01-01\n    1h\n", "2024-01-01\nfoo\n  bar 1h\n\tnot valid\n", "y\n", "\n", "\x00\x01 junk"})
+		}
 		op.Tape = r.Tape(48, 64)
 		op.MapOrder = r.Chance(1, 2) || property == "C11"
 		op.MapTape = r.Tape(16, 7)
 		// faults
 		if property == "C05" {
 			g.genC05Faults(&op, file)
+		} else if property == "C03" && op.Kind == "pause" && len(op.Steps) > 0 && g.targetOf(file) != "" && r.Chance(1, 3) {
+			// somebody else adds a record while the pause runs; a minute boundary follows so that klog writes again
+			op.Steps[r.Intn(len(op.Steps))].Edit = &EditFault{Kind: "append_record", File: g.targetOf(file)}
+			op.Steps = append(op.Steps, TimeStep{AdvanceS: r.Range(61, 200)})
+			delete(g.pred, g.targetOf(file))
 		} else if property == "C04" {
 			switch k := r.Intn(40); {
 			case k == 0:
@@ -762,7 +775,7 @@ func (g *genState) genC05Faults(op *Op, file string) {
 
 var c17Selections = []string{"", "today", "yesterday", "tomorrow", "explicit"}
 var c17Layouts = []string{"none", "today-open", "yesterday-open", "both-open", "today-closed+yesterday-open"}
-var c17Cmds = []string{"start", "stop", "switch", "json-now", "total-now", "today-now"}
+var c17Cmds = []string{"start", "stop", "switch", "json-now", "total-now", "today-now", "today-follow"}
 var c17Roundings = []int{0, 5, 10, 12, 15, 20, 30, 60}
 
 func c17Cells() int {
@@ -772,6 +785,7 @@ func c17Cells() int {
 func genC17(r *Rng, seed int64, index int, tier string) *Scenario {
 	total := c17Cells()
 	cell := index % total
+	cell0 := cell
 	if tier != "thorough" {
 		// spread a short run over the grid; edge minutes first
 		cell = int((uint64(index)*2654435761 + uint64(seed)*97) % uint64(total))
@@ -887,6 +901,26 @@ func genC17(r *Rng, seed int64, index int, tier string) *Scenario {
 	var op Op
 	if c17Cmds[ci] == "json-now" {
 		op = Op{Kind: "json", File: "a.klg", Argv: []string{"json", "--now", "$FILE:a.klg"}}
+	} else if c17Cmds[ci] == "today-follow" && tier == "thorough" && (cell0/1440+cell0)%4 != 0 {
+		// (a long-running process per cell is costly: in the exhaustive sweep every fourth cell of this command
+		// runs in follow mode, the others run the one-shot form once more)
+		op = Op{Kind: "today", File: "a.klg", Argv: []string{"today", "-n", "--decimal", "--no-style", "$FILE:a.klg"}}
+	} else if c17Cmds[ci] == "today-follow" {
+		// a long-running evaluation: refreshed every second until interrupted; time passes (and may jump) meanwhile
+		op = Op{Kind: "today", File: "a.klg", Argv: []string{"today", "--now", "--follow", "--decimal", "--no-style", "$FILE:a.klg"}}
+		if r.Chance(1, 3) {
+			op.Argv = []string{"today", "-nf", "--decimal", "--no-style", "$FILE:a.klg"}
+			op.Argv[1] = "-n"
+			op.Argv = append([]string{"today", "-n", "-f"}, op.Argv[2:]...)
+		}
+		op.Cpus = 1 // one refresh per simulated second: keep each of them cheap (no hand-offs between parser goroutines)
+		op.Steps = []TimeStep{{AdvanceS: r.Pick2([]int{3, 61, 61, 61, 90, 125})}}
+		if minute >= 1436 && r.Chance(1, 2) {
+			op.Steps = []TimeStep{{AdvanceS: (1440-minute)*60 + r.Range(1, 90)}} // across midnight
+		}
+		if r.Chance(1, 6) {
+			op.Steps = append(op.Steps, TimeStep{JumpS: r.Pick2([]int{3600, 7200, -1800, 86400})}, TimeStep{AdvanceS: r.Range(2, 70)})
+		}
 	} else if c17Cmds[ci] == "today-now" {
 		op = Op{Kind: "today", File: "a.klg", Argv: []string{"today", "--now", "--decimal", "--no-style", "$FILE:a.klg"}}
 	} else if c17Cmds[ci] == "total-now" {
@@ -905,6 +939,9 @@ func genC17(r *Rng, seed int64, index int, tier string) *Scenario {
 		}
 		if r.Chance(1, 4) {
 			a.Summary = []string{genSummaryText(r)}
+		}
+		if r.Chance(1, 4) {
+			op.ArgForm = r.Intn(32)
 		}
 		op.renderArgv()
 	}
